@@ -435,12 +435,15 @@ class _LocalSendRecvDepGatherer(
                                         -> FrozenOrderedSet[CommunicationOpIdentifier]:
         send_id = _send_to_comm_id(self.local_rank, expr.send)
 
+        # Traverse the sent data first: it may itself hold a send with the same
+        # identifier, which must be found by the duplicate check below.
+        needed_comm_ids = self.rec(expr.send.data)
+
         if send_id in self.local_send_id_to_send_node:
             from pytato.distributed.verify import DuplicateSendError
             raise DuplicateSendError(f"Multiple sends found for '{send_id}'")
 
-        self.local_comm_ids_to_needed_comm_ids[send_id] = \
-                self.rec(expr.send.data)
+        self.local_comm_ids_to_needed_comm_ids[send_id] = needed_comm_ids
 
         self.local_send_id_to_send_node[send_id] = expr.send
 
